@@ -11,6 +11,7 @@
 #define VF_NUMLIM_MAX_T      VF_T_MAX
 #define VF_NUMLIM_max_T      VF_T_MAX
 #define VF_NUMLIM_lowest_T   VF_T_LOWEST
+#define VF_NUMLIM_min_T      VF_T_MIN     /* numeric_limits<T>::min(): most negative integer, but the smallest POSITIVE normal double */
 #define VF_NUMLIM_MAX_int64_t INT64_MAX
 #define VF_NUMLIM_max_int64_t INT64_MAX
 #define VF_NUMLIM_lowest_int64_t INT64_MIN
